@@ -162,6 +162,7 @@ class FunctionLogger:
             not np.isscalar(fval_orig)
             or not np.isfinite(fval_orig)
             or not np.isreal(fval_orig)
+            or np.iscomplexobj(fval_orig)
         ):
             error_message = """FunctionLogger:InvalidFuncValue:
             The returned function value must be a finite real-valued scalar
